@@ -166,23 +166,67 @@ def build_operators(spec_ops, params, joint):
         elif o["kind"] == "dirichlet":
             op = DirichletOperator(f"op{i}", ps, o["weight"], o["target"], o["scale"], **kw)
         elif o["kind"] == "hmc":
-            integ = IntegProxy(LeapfrogIntegrator(f"lf{i}", o["steps"], o["scale"]))
+            inner = LeapfrogIntegrator(f"lf{i}", o["steps"], o["scale"])
+            integ = IntegProxy(inner)
             mass = Parameter(f"mass{i}", torch.tensor(o["mass"], dtype=torch.float64))
-            op = HMCOperator(f"op{i}", joint, ps, integ, mass, o["weight"], o["target"], [], **kw)
+            op = HMCOperator(f"op{i}", joint, ps, integ, mass, o["weight"], o["target"],
+                             build_adaptors(o.get("adaptors", []), inner, ps, mass, i), **kw)
         else:
             raise ValueError(o["kind"])
         ops.append(op)
     return ops
 
 
+def build_adaptors(specs, integrator, ps, mass, i):
+    from torchtree.inference.hmc.adaptation import AdaptiveStepSize, DualAveragingStepSize, MassMatrixAdaptor
+
+    out = []
+    for j, a in enumerate(specs):
+        win = {}
+        if a.get("start") is not None:
+            win["start"] = a["start"]
+        if a.get("end") is not None:
+            win["end"] = a["end"]
+        if a["type"] == "adaptive":
+            out.append(AdaptiveStepSize(f"ad{i}_{j}", integrator, a["target"],
+                                        use_acceptance_rate=a["use_rate"], **win))
+        elif a["type"] == "dual":
+            out.append(DualAveragingStepSize(f"ad{i}_{j}", integrator, mu=a["mu"], delta=a["delta"], gamma=a["gamma"],
+                                             kappa=a["kappa"], t0=a["t0"], **win))
+        elif a["type"] == "mass":
+            out.append(MassMatrixAdaptor(f"ad{i}_{j}", ps, mass, a.get("regularize", True),
+                                         update_frequency=a["update_frequency"], **win))
+        else:
+            raise ValueError(a["type"])
+    return out
+
+
+def adaptor_state(ad):
+    n = type(ad).__name__
+    if n == "AdaptiveStepSize":
+        return {"type": "adaptive", "calls": ad._call_counter, "accepted": int(ad._accepted)}
+    if n == "DualAveragingStepSize":
+        d = ad._dual_avg
+        return {"type": "dual", "calls": ad._call_counter, "counter": d._counter,
+                "x": 0.0 if d.x is None else float(d.x), "xbar": float(d.x_bar), "sbar": float(d.s_bar)}
+    return {"type": "mass"}
+
+
+def adaptor_step(ad):
+    return float((ad._integrator if hasattr(ad, "_integrator") else ad.integrator).step_size)
+
+
 class IntegProxy:
-    """stands where HMCOperator keeps its integrator; records the momentum the real one returns"""
+    """stands where HMCOperator keeps its integrator; records the momentum the real one returns and the
+    inverse mass matrix it was called with"""
 
     def __init__(self, inner):
         object.__setattr__(self, "inner", inner)
         object.__setattr__(self, "returned", [])
+        object.__setattr__(self, "im_args", [])
 
     def __call__(self, *a, **k):
+        self.im_args.append(a[3].detach().clone().tolist())
         out = self.inner(*a, **k)
         self.returned.append(out.detach().clone().tolist())
         return out
@@ -200,6 +244,35 @@ def scale_of(op):
     if hasattr(op, "_width"):
         return float(op._width)
     return float(op._scaler)
+
+
+def branch_probe(adaptors, rng, sample, accepted):
+    """monotonicity of a step-size adaptor in the acceptance statistic, on the implementation: two deep copies
+    of the adaptor (with its integrator) learn from a lower and a higher acceptance; -> list of dicts"""
+    import copy
+
+    torch = _torch()
+    out = []
+    for a in adaptors:
+        n = type(a).__name__
+        if n not in ("AdaptiveStepSize", "DualAveragingStepSize"):
+            continue
+        lo, hi = sorted([rng.random(), rng.random()])
+        try:
+            c1, c2 = copy.deepcopy(a), copy.deepcopy(a)
+            if n == "AdaptiveStepSize" and a._acceptance_rate:
+                c1.learn(torch.tensor(lo, dtype=torch.float64), sample, False)
+                c2.learn(torch.tensor(lo, dtype=torch.float64), sample, True)
+                what = "accepted False vs True (rate mode)"
+            else:
+                c1.learn(torch.tensor(lo, dtype=torch.float64), sample, accepted)
+                c2.learn(torch.tensor(hi, dtype=torch.float64), sample, accepted)
+                what = f"acceptance_prob {lo} vs {hi}"
+            out.append({"adaptor": n, "what": what, "low": adaptor_step(c1), "high": adaptor_step(c2),
+                        "state": adaptor_state(a)})
+        except Exception as e:
+            out.append({"adaptor": n, "error": f"{type(e).__name__}: {e}"})
+    return out
 
 
 # --------------------------------------------------------------------------- scripted randomness
@@ -281,6 +354,7 @@ def execute_run(cfg, tape_seed):
     params, joint = tgt.params, tgt.joint
     ops = build_operators(cfg["ops"], params, joint)
     rng = random.Random(tape_seed)
+    rng2 = random.Random(tape_seed ^ 0x5A5A)
     records, joint_calls, rows = [], [], []
     cur = {}
 
@@ -299,13 +373,31 @@ def execute_run(cfg, tape_seed):
 
     def wrap(op, idx):
         o_step, o_acc, o_rej, o_tune = op.step, op.accept, op.reject, op.tune
+        is_hmc = hasattr(op, "_integrator")
+        kin_ims = []
+        if is_hmc:
+            o_kin = op._hamiltonian.kinetic_energy
+
+            def kinetic_energy(momentum, inverse_mass_matrix):
+                kin_ims.append(inverse_mass_matrix.detach().clone().tolist())
+                return o_kin(momentum, inverse_mass_matrix)
+
+            op._hamiltonian.kinetic_energy = kinetic_energy
 
         def step():
             cur.clear()
             cur.update({"in_iter": True, "op": idx, "before": snap(), "scale_before": scale_of(op),
                         "ev0": len(sc.events) - 1,  # the Categorical draw belongs to this iteration
-                        "ret0": len(op._integrator.returned) if hasattr(op, "_integrator") else 0})
+                        "ret0": len(op._integrator.returned) if is_hmc else 0})
+            cur["masses"] = {j: o2._mass_matrix.tensor.detach().clone().tolist()
+                             for j, o2 in enumerate(ops) if hasattr(o2, "_mass_matrix")}
+            if is_hmc:
+                cur["mass_now"] = cur["masses"][idx]
+                del kin_ims[:]
+                cur["ims0"] = len(op._integrator.im_args)
             hr = o_step()
+            if is_hmc:
+                cur["im_used"] = list(kin_ims) + op._integrator.im_args[cur["ims0"]:]
             cur["hr"] = float(hr)
             cur["proposed"] = snap()
             return hr
@@ -323,7 +415,13 @@ def execute_run(cfg, tape_seed):
             cur["acc_prob"] = float(acceptance_prob)
             cur["sample"] = sample
             cur["row"] = list(rows[-1]) if rows else None
+            if is_hmc and op._adaptors:
+                cur["adaptors_before"] = [adaptor_state(a) for a in op._adaptors]
+                cur["branch"] = branch_probe(op._adaptors, rng2, sample, accepted)
             r = o_tune(acceptance_prob, sample=sample, accepted=accepted)
+            if is_hmc and op._adaptors:
+                cur["adaptors_after"] = [adaptor_state(a) for a in op._adaptors]
+                cur["mass_after"] = op._mass_matrix.tensor.detach().clone().tolist()
             cur["scale_after"] = scale_of(op)
             cur["adapt_count"] = op._adapt_count
             cur["n_accept"], cur["n_reject"] = op._accept, op._reject
@@ -357,11 +455,11 @@ def execute_run(cfg, tape_seed):
 
 
 # --------------------------------------------------------------------------- model side encoding
-def enc_machine(cfg, state, lj, epoch, acc_total, opstates):
+def enc_machine(cfg, state, lj, epoch, acc_total, opstates, masses=None):
     sizes = [len(v) for v in state]
     w = [str(len(sizes))] + [str(s) for s in sizes] + [f2h(x) for v in state for x in v]
     w += [f2h(lj), str(epoch), str(acc_total), str(len(cfg["ops"]))]
-    for o, st in zip(cfg["ops"], opstates):
+    for oi_, (o, st) in enumerate(zip(cfg["ops"], opstates)):
         w += [o["kind"], str(len(o["pidx"]))] + [str(k) for k in o["pidx"]]
         w += [f2h(o["target"]), "0" if o["adapt"] else "1", str(o.get("window_len", 100)), f2h(st["scale"]),
               str(st["adapt_count"]), str(st["accept"]), str(st["reject"]), str(len(st["window"]))]
@@ -377,14 +475,38 @@ def enc_machine(cfg, state, lj, epoch, acc_total, opstates):
             other = [i for i in range(pos) if i not in own]
             flat_state = [x for v in state for x in v]
             n = len(own)
-            dense = isinstance(o["im"][0], list)
+            # inverse of the mass matrix parameter AS IT IS NOW (an adaptor may have re-estimated it), inverted
+            # here — not the operator's cached inverse
+            mass_now = (masses or {}).get(oi_, o["mass"])
+            im = inv_mass(mass_now)
+            dense = isinstance(im[0], list)
             w += [str(o["steps"]), "dense" if dense else "diag", str(n)]
-            w += [f2h(x) for x in ([v for row in o["im"] for v in row] if dense else o["im"])]
+            w += [f2h(x) for x in ([v for row in im for v in row] if dense else im)]
             w += [f2h(o["G"][i][j]) for i in own for j in own]
             w += [f2h(float(Fraction(o["b"][i]) + sum(Fraction(o["G"][i][j]) * Fraction(flat_state[j]) for j in other)))
                   for i in own]
             w += [f2h(o.get("lo", -math.inf)), f2h(o.get("hi", math.inf))]
+            ads = st.get("adaptors", [])
+            w.append(str(len(ads)))
+            for a, ast_ in zip(o.get("adaptors", []), ads):
+                opt = lambda v: "-1" if v is None else str(v)
+                if a["type"] == "adaptive":
+                    w += ["adaptive", f2h(a["target"]), str(a.get("start") if a.get("start") is not None else 1),
+                          opt(a.get("end")), "1" if a["use_rate"] else "0", str(ast_["calls"]), str(ast_["accepted"])]
+                elif a["type"] == "dual":
+                    w += ["dual", f2h(a["mu"]), f2h(a["gamma"]), f2h(a["kappa"]), f2h(float(a["t0"])), f2h(a["delta"]),
+                          str(a.get("start") if a.get("start") is not None else 0), opt(a.get("end")),
+                          str(ast_["calls"]), str(ast_["counter"]), f2h(ast_["x"]), f2h(ast_["xbar"]), f2h(ast_["sbar"])]
+                else:
+                    w.append("mass")
     return w
+
+
+def inv_mass(mass):
+    if mass and isinstance(mass[0], list):
+        torch = _torch()
+        return torch.inverse(torch.tensor(mass, dtype=torch.float64)).tolist()
+    return [1.0 / m for m in mass]
 
 
 def enc_tape(events):
@@ -436,7 +558,21 @@ def parse_step(rep, sizes):
             "logged": "bad" if parts[7][0] == "bad" else h2f(parts[7][1]),
             "scale": h2f(opf[0]), "adapt_count": int(opf[1]), "accept": int(opf[2]), "reject": int(opf[3]),
             "window": [int(x) for x in opf[5:5 + wl]],
-            "consumed": tuple(int(x) for x in parts[9]), "epoch": int(parts[10][0]), "acc_total": int(parts[10][1])}
+            "consumed": tuple(int(x) for x in parts[9]), "epoch": int(parts[10][0]), "acc_total": int(parts[10][1]),
+            "adaptors": parse_adaptors(rep[3:].split("|")[11] if len(parts) > 11 else "")}
+
+
+def parse_adaptors(txt):
+    out = []
+    for a in [x.split() for x in txt.split(";") if x.strip()]:
+        if a[0] == "adaptive":
+            out.append({"type": "adaptive", "calls": int(a[1]), "accepted": int(a[2])})
+        elif a[0] == "dual":
+            out.append({"type": "dual", "calls": int(a[1]), "counter": int(a[2]), "x": h2f(a[3]), "xbar": h2f(a[4]),
+                        "sbar": h2f(a[5])})
+        else:
+            out.append({"type": "mass"})
+    return out
 
 
 def flatten(st):
@@ -454,13 +590,15 @@ def compare_run(ck: Check, drv, cfg, res, label):
     recs = res["records"]
     exact = cfg["exact_expected"]
     state, lj = res["init"], res["init_lp"]
-    opstates = [{"scale": o["scale"], "adapt_count": 0, "accept": 0, "reject": 0, "window": []} for o in cfg["ops"]]
+    opstates = [{"scale": o["scale"], "adapt_count": 0, "accept": 0, "reject": 0, "window": [],
+                 "adaptors": [{"type": a["type"], "calls": 0, "accepted": 0, "counter": 0, "x": 0.0, "xbar": 0.0, "sbar": 0.0}
+                              for a in o.get("adaptors", [])]} for o in cfg["ops"]]
     epoch, acc_total = 1, 0
     sizes = [len(v) for v in state]
     for it, r in enumerate(recs):
         tape_w, counts = enc_tape(r["events"])
         table = [(r["before"], lj), (r["proposed"], r.get("lp_proposed"))]
-        req = ["step"] + enc_machine(cfg, state, lj, epoch, acc_total, opstates) + tape_w + enc_table(table)
+        req = ["step"] + enc_machine(cfg, state, lj, epoch, acc_total, opstates, r.get("masses")) + tape_w + enc_table(table)
         m = parse_step(drv.ask(" ".join(req)), sizes)
         okind = cfg["ops"][r["op"]]["kind"]
         key = (label, it, okind, r["accepted"], r["hr"], tuple(flatten(r["proposed"])))
@@ -496,10 +634,18 @@ def compare_run(ck: Check, drv, cfg, res, label):
             bad.append("state after")
         if m["consumed"] != counts:
             bad.append(f"tape consumption (model {m['consumed']}, impl {counts})")
-        if not close(m["scale"], r["scale_after"], 1e-12):
+        # dual averaging multiplies differences of the acceptance statistic by sqrt(counter)/gamma (~1e2): the
+        # model's own acceptance probabilities differ from torch's in the last bits, hence 1e-8 there
+        has_dual = any(a["type"] == "dual" for a in cfg["ops"][r["op"]].get("adaptors", []))
+        if not close(m["scale"], r["scale_after"], 1e-8 if has_dual else 1e-12):
             bad.append(f"scale after tuning (model {m['scale']}, impl {r['scale_after']})")
         if (m["adapt_count"], m["accept"], m["reject"], m["window"]) != (r["adapt_count"], r["n_accept"], r["n_reject"], r["window"]):
             bad.append("counters / acceptance window")
+        if "adaptors_after" in r:
+            for ma, ia in zip(m["adaptors"], r["adaptors_after"]):
+                if ma["type"] != ia["type"] or any(ma.get(k) != ia.get(k) for k in ("calls", "accepted", "counter")) or \
+                        any(not close(ma.get(k, 0.0), ia.get(k, 0.0), 1e-8) for k in ("x", "xbar", "sbar") if k in ia):
+                    bad.append(f"adaptor state (model {ma}, impl {ia})")
         if r["row"] is not None:
             if not states_close([r["row"][:-1]], [flatten(m["after"])], tol):
                 bad.append("logger row parameters")
@@ -512,7 +658,13 @@ def compare_run(ck: Check, drv, cfg, res, label):
             return False
         state, lj, epoch, acc_total = m["after"], m["lj"], m["epoch"], m["acc_total"]
         opstates[r["op"]] = {"scale": m["scale"], "adapt_count": m["adapt_count"], "accept": m["accept"],
-                             "reject": m["reject"], "window": m["window"]}
+                             "reject": m["reject"], "window": m["window"], "adaptors": m["adaptors"]}
+        if has_dual:
+            # dual averaging amplifies last-bit differences (factor sqrt(counter)/gamma per call): after the
+            # 1e-8 comparison above, continue from the implementation's step size and averages (per-step
+            # simulation) so that the error does not feed back into the positions
+            opstates[r["op"]]["scale"] = r["scale_after"]
+            opstates[r["op"]]["adaptors"] = [dict(x) for x in r["adaptors_after"]]
     if res["epoch_end"] != epoch and res["error"] is None:
         ck.mismatch("iteration counter after the run differs", {"impl": res["epoch_end"], "model": epoch})
     return True
@@ -552,6 +704,34 @@ def kin_exact(im, v):
     else:
         mv = [Fraction(im[i]) * v[i] for i in range(len(v))]
     return sum(a * b for a, b in zip(v, mv)) / 2
+
+
+def is_inverse(im, mass):
+    if mass and isinstance(mass[0], list):
+        n = len(mass)
+        if not (im and isinstance(im[0], list)):
+            return False
+        for i in range(n):
+            for j in range(n):
+                v = sum(im[i][k] * mass[k][j] for k in range(n))
+                if abs(v - (1.0 if i == j else 0.0)) > 1e-7:
+                    return False
+        return True
+    if im and isinstance(im[0], list):
+        return False
+    return all(abs(a * b - 1.0) <= 1e-9 for a, b in zip(im, mass))
+
+
+def kin_float(im, v):
+    import mpmath as mp
+
+    mp.mp.dps = 40
+    v = [mp.mpf(x) for x in v]
+    if im and isinstance(im[0], list):
+        mv = [sum(mp.mpf(im[i][j]) * v[j] for j in range(len(v))) for i in range(len(v))]
+    else:
+        mv = [mp.mpf(im[i]) * v[i] for i in range(len(v))]
+    return float(sum(a * b for a, b in zip(v, mv)) / 2)
 
 
 def true_hastings(cfg, r):
@@ -601,16 +781,23 @@ def true_hastings(cfg, r):
         ev = [e for e in r["events"] if e[0] == "normal"]
         if not ev or not r.get("returned"):
             return None, "no momentum draw / returned momentum observed"
-        for e in ev:  # the momentum law must be N(0, M)
+        # one CURRENT mass matrix M (the parameter the adaptor writes): the momentum law must be N(0, M), and
+        # the integrator and both kinetic energies must use an inverse of that same M
+        mass = r.get("mass_now", o["mass"])
+        for e in ev:
             kindm, loc, sc = e[2]
             if any(v != 0 for v in loc):
                 return None, "momentum mean not zero"
-            mass = o["mass"]
-            if kindm == "diag" and not all(close(s * s, m_, 1e-12) for s, m_ in zip(sc, mass)):
-                return None, "momentum scale^2 is not the mass matrix"
-            if kindm == "dense" and not all(close(x, y, 1e-12) for x, y in zip(flatten(sc), flatten(mass))):
-                return None, "momentum covariance is not the mass matrix"
-        return float(kin_exact(o["im"], ev[-1][1]) - kin_exact(o["im"], r["returned"][-1])), None
+            if kindm == "diag" and not all(close(s * s, m_, 1e-10) for s, m_ in zip(sc, mass)):
+                return None, "momentum scale^2 is not the current mass matrix"
+            if kindm == "dense" and not all(close(x, y, 1e-10) for x, y in zip(flatten(sc), flatten(mass))):
+                return None, "momentum covariance is not the current mass matrix"
+        for im_u in r.get("im_used", []):
+            if not is_inverse(im_u, mass):
+                return None, "inverse mass matrix used by the integrator / kinetic energy is not the inverse of the current mass matrix"
+        im = inv_mass(mass)
+        k0, k1 = kin_float(im, ev[-1][1]), kin_float(im, r["returned"][-1])
+        return k0 - k1, None
     return None, None
 
 
@@ -622,6 +809,7 @@ def check_records(ck: Check, cfg, res, found, label):
     if isinstance(fresh0, float) and not close(fresh0, carried, 1e-9):
         found.append(("MCMC.run:initial-density", {"clause": "initial log_joint is not the target at the initial state",
                                                    "carried": carried, "fresh": fresh0}, cfg, 0))
+    hmc_counts = {}
     for it, r in enumerate(recs := res["records"]):
         o = cfg["ops"][r["op"]]
         kind = o["kind"]
@@ -697,8 +885,47 @@ def check_records(ck: Check, cfg, res, found, label):
             if isinstance(fa, float) and not close(carried, fa, 1e-9):
                 found.append((f"{kind}:carried-density", {"clause": "carried log_joint is not the target at the "
                                                                     "current state", "carried": carried, "fresh": fa}, cfg, it))
+        # 6b. HMC adaptors: direction of AdaptiveStepSize with the statistic its configuration uses; monotonicity
+        #     of every step-size adaptor in the acceptance statistic (deep-copied adaptors, see branch_probe)
+        if kind == "hmc" and o.get("adaptors"):
+            st_ = hmc_counts.setdefault(r["op"], {"calls": 0, "accepted": 0})
+            st_["calls"] += 1
+            st_["accepted"] += 1 if r["accepted"] else 0
+            for a in o["adaptors"]:
+                if a["type"] != "adaptive":
+                    continue
+                ck.bucket("oracle/adaptive-step-size/" + ("rate" if a["use_rate"] else "prob"))
+                stat = st_["accepted"] / st_["calls"] if a["use_rate"] else r["acc_prob"]
+                s0, s1 = r["scale_before"], r["scale_after"]
+                start_, end_ = (a.get("start") if a.get("start") is not None else 1), a.get("end")
+                active = start_ <= st_["calls"] and (end_ is None or st_["calls"] <= end_) and \
+                    (not a["use_rate"] or st_["calls"] >= 10)
+                if not active and s1 != s0 and len([x for x in o["adaptors"] if x["type"] != "mass"]) == 1:
+                    found.append(("AdaptiveStepSize:adaptation-window",
+                                  {"clause": "step size changed outside the configured adaptation window "
+                                             "(start/end, and the first 10 calls in acceptance-rate mode)",
+                                   "hmc_call": st_["calls"], "start": start_, "end": end_, "step_before": s0,
+                                   "step_after": s1, "adaptor": a}, cfg, it))
+                if (stat > a["target"] and s1 < s0 * (1 - 1e-12)) or (stat < a["target"] and s1 > s0 * (1 + 1e-12)):
+                    found.append(("AdaptiveStepSize:tuning-direction",
+                                  {"clause": "step size moved away from the target acceptance "
+                                             "(statistic above target: step decreased / below target: increased)",
+                                   "statistic": ("acceptance rate" if a["use_rate"] else "acceptance probability"),
+                                   "value": stat, "target": a["target"], "hmc_call": st_["calls"],
+                                   "step_before": s0, "step_after": s1, "adaptor": a}, cfg, it))
+            for bp in r.get("branch", []):
+                ck.bucket("oracle/adaptor-monotone/" + bp["adaptor"])
+                if "error" in bp:
+                    found.append((bp["adaptor"] + ":learn-raised", {"clause": "adaptor.learn raised: " + bp["error"]}, cfg, it))
+                elif bp["high"] < bp["low"] * (1 - 1e-12):
+                    found.append((bp["adaptor"] + ":tuning-direction",
+                                  {"clause": "a higher acceptance statistic gave a smaller step size from the same adaptor state",
+                                   "what": bp["what"], "step_low": bp["low"], "step_high": bp["high"],
+                                   "state": bp["state"]}, cfg, it))
         # 6. tuning direction
-        if o["adapt"]:
+        if kind == "hmc" and o.get("adaptors"):
+            pass
+        elif o["adapt"]:
             b0, b1 = boldness(kind, r["scale_before"]), boldness(kind, r["scale_after"])
             if r["acc_prob"] >= o["target"] and b1 < b0 * (1 - 1e-12):
                 found.append((f"{op_class(kind)}:tuning-direction",
@@ -886,6 +1113,43 @@ def gen_cfg(rng, family, adapt, iterations):
         if rng.random() < 0.5:
             ops.append(op("window", [1], rng.uniform(0.1, 1.0)))  # may step below zero: degenerate branch
         exact = False
+    elif family == "hmc_adapt":
+        # HMC with the adaptors of hmc/adaptation.py, run past the first mass-matrix re-estimation
+        n = rng.randint(2, 3)
+        if rng.random() < 0.5:
+            t = {"kind": "normal", "loc": [rng.uniform(-1, 1) for _ in range(n)],
+                 "scale": [rng.uniform(0.5, 2) for _ in range(n)], "init": [[rng.uniform(-1, 1) for _ in range(n)]]}
+            G = [[(1.0 / t["scale"][i] ** 2 if i == j else 0.0) for j in range(n)] for i in range(n)]
+            b = [-t["loc"][i] / t["scale"][i] ** 2 for i in range(n)]
+        else:
+            L = [[(1 if i == j else (rng.choice([-1, 0, 1]) if j < i else 0)) for j in range(n)] for i in range(n)]
+            G = [[float(sum(L[i][k] * L[j][k] for k in range(n))) for j in range(n)] for i in range(n)]
+            b = [float(rng.randint(-2, 2)) for _ in range(n)]
+            t = {"kind": "quad", "G": G, "b": b, "init": [[rng.randint(-4, 4) / 4 for _ in range(n)]]}
+        # step sizes from timid to near the stability limit: acceptance probabilities spread over (0, 1] and
+        # real rejections occur, so that rate and probability statistics differ
+        eps = rng.choice([0.1, 0.3, 0.6, 0.9, 1.2])
+        ads = []
+        which = rng.choice(["adaptive-prob", "adaptive-rate", "dual", "none"])
+        win = {"start": rng.choice([None, None, 3, 12]), "end": rng.choice([None, None, 20, 35])}
+        if which.startswith("adaptive"):
+            ads.append({"type": "adaptive", "target": rng.choice([0.6, 0.8, 0.9, 0.3]), "use_rate": which.endswith("rate"), **win})
+        elif which == "dual":
+            ads.append({"type": "dual", "mu": math.log(10 * eps), "delta": rng.choice([0.8, 0.65]), "gamma": 0.05,
+                        "kappa": 0.75, "t0": 10, **win})
+        mk = rng.choice(["diag", "dense", "none"]) if ads else rng.choice(["diag", "dense"])
+        if mk == "dense":
+            mass = [[(rng.choice([0.5, 1.0, 2.0]) if i == j else 0.0) for j in range(n)] for i in range(n)]
+            mass[0][1] = mass[1][0] = 0.25
+        else:
+            mass = [rng.choice([0.5, 1.0, 2.0]) for _ in range(n)]
+        if mk != "none":
+            ads.append({"type": "mass", "update_frequency": 10 if mk == "dense" else rng.choice([5, 10]),
+                        "start": rng.choice([None, None, 2]), "end": None,
+                        "regularize": True if mk == "dense" else rng.random() < 0.8})
+        ops = [op("hmc", [0], eps, steps=rng.randint(2, 6), mass=mass, G=G, b=b, target=0.8, adaptors=ads, weight=4.0),
+               op("window", [0], rng.uniform(0.3, 1.5), weight=1.0)]
+        iterations = max(iterations, rng.randint(45, 70))
     else:  # quad: dyadic everything, two parameters, HMC + sliding window, exact arithmetic
         sizes = rng.choice([[1, 1], [2, 1], [1], [2]])
         n = sum(sizes)
@@ -912,7 +1176,7 @@ def gen_cfg(rng, family, adapt, iterations):
             t["lo"], t["hi"] = init[0][0] - half_band, init[0][0] + half_band
             ops[0]["lo"], ops[0]["hi"] = t["lo"], t["hi"]
         exact = True
-    any_adapt = any(o["adapt"] for o in ops)
+    any_adapt = any(o["adapt"] or o.get("adaptors") for o in ops)
     return {"family": family, "target": t, "ops": ops, "iterations": iterations,
             # bit-exact agreement is demanded when only elementwise IEEE operations are on the state path: no
             # adaptation (exp/log in the scale) and no HMC (torch's matmul sums in its own order once the state is
@@ -966,10 +1230,10 @@ def run(ck: Check):
             c = json.loads(f.read_text())
             if "cfg" in c:
                 runs.append((c["cfg"], c["tape_seed"], "corpus/" + f.stem))
-        fams = ["normal", "gamma_exp", "dirichlet", "quad", "quad_nan"]
+        fams = ["normal", "gamma_exp", "dirichlet", "quad", "quad_nan", "hmc_adapt", "hmc_adapt"]
         for i in range(n_runs):
-            fam = fams[i % 5]
-            adapt = [True, False, "mixed"][(i // 5) % 3]
+            fam = fams[i % 7]
+            adapt = [True, False, "mixed"][(i // 7) % 3]
             runs.append((gen_cfg(rng, fam, adapt, rng.randint(*iters)), rng.randrange(1 << 30), f"run{i}"))
         for cfg, tseed, label in runs:
             try:
@@ -978,7 +1242,15 @@ def run(ck: Check):
                 ck.mismatch("could not build / run the configuration", {"cfg": cfg, "error": f"{type(e).__name__}: {e}"})
                 continue
             ck.bucket(f"runs/{cfg['family']}/{'exact' if cfg['exact_expected'] else 'tolerance'}")
-            if res["error"]:
+            dense_adapted = any(a["type"] == "mass" and isinstance(o["mass"][0], list)
+                                for o in cfg["ops"] for a in o.get("adaptors", []))
+            if res["error"] and dense_adapted and "covariance_matrix" in res["error"]:
+                # the dense MassMatrixAdaptor can hand torch a re-estimated matrix that MultivariateNormal's
+                # validation refuses (float32 running mean -> asymmetric / near-singular estimate from few, repeated
+                # samples): the run stops inside sample_momentum.  Not one of the property's clauses; the
+                # transitions recorded before it are still checked.
+                ck.bucket("runs/stopped-by-torch-validation-of-adapted-dense-mass")
+            elif res["error"]:
                 ck.mismatch("MCMC.run raised", {"cfg": cfg, "tape_seed": tseed, "error": res["error"],
                                                "iterations_done": len(res["records"])})
                 ck.bucket("runs/raised-" + res["error"].split(":")[0])
